@@ -129,6 +129,12 @@ def run(ctx):
             i = idx[j]
             ctx.fail("ledger:" + v.split(" ")[0], "the allocation trace of %s is not balanced (%s): %s" % (name, v, lines[i][:300]), {"line": lines[i], "trace": traces[j][9:2000], "verdict": v})
         ctx.count("ledger:" + name, len(lines), nontrivial, {"stream": name, "input": lines[0][:160], "trace": traces[0][9:200] if traces else ""})
+        helper = {"flat-containers": "checks._seq_ledger", "hash-containers": "checks._hash_ledger"}.get(name)
+        if helper:
+            m = importlib.import_module(helper)
+            if hasattr(m, "compare_traces"):
+                # per-operation trace model (Lean) vs the real trace, event for event
+                m.compare_traces(ctx, lines, out, drv)
         ctx.notes.append({name: {"operations": len(lines), "events": events}})
 
 
@@ -140,13 +146,18 @@ def extra_modules():
     return ms
 
 
+AREA_HELPERS = (("checks._seq_ledger", "SEQ_LEDGER_THEOREMS", "compare_traces"),
+                ("checks._hash_ledger", "HASH_LEDGER_THEOREMS", "compare_traces"))
+
+
 def extra_theorems():
     ts = []
-    for mod in ("checks._seq_ledger", "checks._hash_ledger"):
+    for mod, tname, _ in AREA_HELPERS:
         try:
-            ts += list(importlib.import_module(mod).THEOREMS)
-        except (ImportError, AttributeError):
-            pass
+            m = importlib.import_module(mod)
+        except ImportError:
+            continue
+        ts += list(getattr(m, tname, getattr(m, "THEOREMS", [])))
     return ts
 
 
